@@ -103,7 +103,7 @@ LEAF_POOL = {
     "ipv6if": [ipaddress.IPv6Interface("2001:db8::1/64")],
     "path": [pathlib.Path("a/b.txt"), pathlib.Path("/"), pathlib.Path(".")],
     "pattern": [re.compile("a+b"), re.compile(""), re.compile(r"\d{2}[x-z]\\")],
-    "bytes": [b"", b"abc", bytes(range(256)), b"\n\x00'\"", b"x" * 58],
+    "bytes": [b"", b"abc", bytes(range(0, 256, 3)), b"\n\x00'\"", b"x" * 58],
     "bytearray": [bytearray(b""), bytearray(b"\x01\x02\xff"), bytearray(b"hello world")],
 }
 try:
@@ -530,7 +530,8 @@ def _canon(x, reg, iter_order, objmap):
     if t in LEAF_OF_TYPE:
         return ["leaf", LEAF_OF_TYPE[t], repr(x)]
     if isinstance(x, re.Pattern):
-        return ["leaf", "pattern", repr(x) if x.flags == re.compile("").flags else f"re.compile({x.pattern!r}, {int(x.flags)})"]
+        # (repr(pattern) truncates long patterns: spell the constructor call out)
+        return ["leaf", "pattern", f"re.compile({x.pattern!r})" if x.flags == re.compile("").flags else f"re.compile({x.pattern!r}, {int(x.flags)})"]
     if reg is not None and t in reg.ids:
         cid = reg.ids[t]
         if isinstance(x, enum.Enum):
